@@ -14,7 +14,8 @@ BOUNDS = {
         "short: 1-2 failing Write calls among the first 2-6, every accepted count 0..len(p). unwrite: 1-2 members, each value one of 15 kinds "
         "(null, \"\", {}, [], \"x\", 0, {\"a\":null}, \"\\\"\", raw values with whitespace, [[]], [\"\"], a nested object emptied by its own retraction), "
         "omitempty chosen per member, object at top level / inside an array / as a member value, namespace disabled (as the struct marshaler "
-        "does) or active (with duplicate-name probe). unwname: 2 keys of 1 symbolic byte. "
+        "does) or active (with duplicate-name probe). unwname: 2 keys of 1 symbolic byte. pool: the pooled streaming encoder (getStreamingEncoder/putStreamingEncoder, "
+        "as two MarshalWrite calls use it) reused after a first use that stopped at a failed/short Write; sync.Pool modelled as LIFO. "
         "OUTSIDE: json.Marshal/MarshalWrite/MarshalEncode of typed Go values (reflection-driven; not executable by the engine) - the claim is "
         "established for the token-level Encoder they are built on, not for them; AppendRaw; capacities above 16 and outputs longer than ~40 bytes; "
         "longer sequences; more than 2 write faults; writers that return n>len(p) or n<len(p) without error; indent strings other than one tab."
@@ -126,6 +127,12 @@ def obligations(tier):
             unwrite(L, 0, 2, c, 3, bbuf=True)
     unwrite(L, 1, 2, 8, 1, bbuf=True)
     unwrite(L, 0, 1, 4, 1, ws=2, sym=True, ptr=True)
+    PC = ["first-use-failed", "unflushed-bytes-left-behind", "recycled"]
+    L.append(ob("pool/[s{as}]+[s]/str=1/alpha=1/at<=3", "jsontext", "VerifC07Pool", ["[s{as}]", "[s]", 1, 1, 3], covers=PC))
+    L.append(ob("pool/{as}+n/str=2/alpha=3/at<=1", "jsontext", "VerifC07Pool", ["{as}", "n", 2, 3, 1], covers=PC))
+    if not q:
+        L.append(ob("pool/[ss{as}]+{as}/str=2/alpha=3/at<=5", "jsontext", "VerifC07Pool", ["[ss{as}]", "{as}", 2, 3, 5], covers=PC))
+        L.append(ob("pool/[s[s]]+[s]/str=1/alpha=0/at<=4", "jsontext", "VerifC07Pool", ["[s[s]]", "[s]", 1, 0, 4], covers=PC))
     unwname(L, 2, 4, 1)
     unwname(L, 2, 8, 1, ws=1, nsoff=True)
     if not q:
